@@ -1,5 +1,6 @@
 SPECIFICATION Spec
 CONSTANTS
   MBs <- MCMBsThorough
-INVARIANTS TypeOK IsSet IterContract
+VIEW DesignView
+INVARIANTS TypeOK IsSet IterContract QueryContract
 PROPERTIES FrameOK
